@@ -52,6 +52,16 @@ CLAIMS = {
         note="dtype kinds are outside the claim (pandas C promotion rules cannot be encoded); internal lowered nodes are not collections and are not checked.",
         design="§4 C07",
     ),
+    "C12": dict(
+        category="model_checking", engine="P",
+        technique="symbolic execution of the real shuffle task graphs with one symbolic optional row per input partition and an uninterpreted hash; z3 decides per-row routing obligations",
+        text="Exhaustively over (input partitions, output partitions, max_branch) up to 9x9 (quick) / 13x13 (thorough), methods tasks and simple, ignore_index, column / multi-column / "
+             "index keys and subsets of output partitions, the real RearrangeByColumn -> Shuffle -> TaskShuffle/SimpleShuffle graph is executed symbolically; z3 proves every present "
+             "row appears exactly once, in exactly the output named by its assigned partition number, with unchanged payload, that the number is a function of the key alone, and that "
+             "int and float keys of equal value get the same number in different frames.",
+        note="Trusted: hash_object is a function of the float64-cast key value (uninterpreted function), group_split/concat leaf models. Disk and p2p shuffles, string/categorical hashing outside.",
+        design="§4 C12",
+    ),
     "C14": dict(
         category="translation_validation", engine="P",
         technique="symbolic execution of fused vs unfused real task graphs; z3 decides per-partition sequence equality",
